@@ -731,7 +731,7 @@ def _exhaustive(max_len):
 def cases(rng, tier):
     quick = tier == "quick"
     plan = [("aslice", 260), ("slice", 300), ("slice-overhang", 120), ("feature", 260), ("revcomp", 120), ("copy", 100), ("malformed", 140)]
-    mult = 3 if quick else 20
+    mult = 3 if quick else 40
     for kind, cnt in plan:
         for _ in range(cnt * mult):
             if kind == "aslice":
